@@ -9,12 +9,24 @@ that responses land before *and* after the wrapper's own timers, plus library Se
 from __future__ import annotations
 
 from happysimulator.components.client import Client
-from happysimulator.components.client.retry import FixedRetry
+from happysimulator.components.client.retry import ExponentialBackoff, FixedRetry
 from happysimulator.components.resilience import Bulkhead, CircuitBreaker, Fallback, Hedge, TimeoutWrapper
 from happysimulator.components.server import Server
 
 from hsverif.scenarios import Scenario, scenario
-from hsverif.scenarios._kit import ConstantLatency, Entity, Event, P, Proc, Recorder, ev, make_sim
+from hsverif.scenarios._kit import (
+    FRONT_STAGES,
+    ConstantLatency,
+    Entity,
+    Event,
+    P,
+    Proc,
+    Recorder,
+    Replier,
+    ev,
+    front_stage,
+    make_sim,
+)
 
 
 class VarBackend(Entity):
@@ -72,12 +84,12 @@ def bulkhead_queue_timeouts(seed, params):
     """Burst > max_concurrent; the wait queue is bounded and max_wait_time is shorter than
     some service times, so queued requests time out while permits are still held."""
     p = P(params, seed)
-    cap = p.cap(2)
+    arr = p.arrivals(9)
+    cap = min(p.cap(2), max(1, len(arr) - 2))  # always below the burst
     hold = p.hold()
     rec = Recorder("rec")
     be = VarBackend("be", [hold, hold * 0.25, hold * 3], downstream=rec)
-    bh = Bulkhead("bulkhead", target=be, max_concurrent=cap, max_wait_queue=cap + 2, max_wait_time=p.lat(0))
-    arr = p.arrivals(9)
+    bh = Bulkhead("bulkhead", target=be, max_concurrent=cap, max_wait_queue=p.count(0, cap + 2), max_wait_time=p.lat(0))
     sim = make_sim([bh, be, rec], p.end())
     _send(sim, bh, arr, rec)
     return Scenario(sim, {"bulkhead": bh, "be": be, "rec": rec}, "resilience", True, len(arr))
@@ -88,12 +100,12 @@ def bulkhead_long_wait(seed, params):
     """max_wait_time longer than the service time (timers fire for requests that were already
     dequeued) and one builder run without max_wait_time at all (x.no_wait_time)."""
     p = P(params, seed)
-    cap = p.cap(1)
+    arr = p.arrivals(7)
+    cap = min(p.cap(1), max(1, len(arr) - 2))
     hold = p.hold()
     be = VarBackend("be", [hold, hold * 0.5])
     wait = None if p.x("no_wait_time", False) else hold * 2.5 + p.lat(0)
-    bh = Bulkhead("bulkhead", target=be, max_concurrent=cap, max_wait_queue=3, max_wait_time=wait)
-    arr = p.arrivals(7)
+    bh = Bulkhead("bulkhead", target=be, max_concurrent=cap, max_wait_queue=p.count(0, 3), max_wait_time=wait)
     sim = make_sim([bh, be], p.end())
     _send(sim, bh, arr)
     return Scenario(sim, {"bulkhead": bh, "be": be}, "resilience", True, len(arr))
@@ -105,7 +117,7 @@ def bulkhead_server_target(seed, params):
     p = P(params, seed)
     rec = Recorder("rec")
     srv = Server("srv", concurrency=1, service_time=ConstantLatency(p.hold()), queue_capacity=2, downstream=rec)
-    bh = Bulkhead("bulkhead", target=srv, max_concurrent=p.cap(2), max_wait_queue=2, max_wait_time=p.lat(1))
+    bh = Bulkhead("bulkhead", target=srv, max_concurrent=p.cap(2), max_wait_queue=p.count(0, 2, lo=0), max_wait_time=p.lat(1))
     arr = p.arrivals(8)
     sim = make_sim([bh, srv, rec], p.end())
     _send(sim, bh, arr, rec)
@@ -129,8 +141,8 @@ def circuit_breaker_trips_and_recovers(seed, params):
     cb = CircuitBreaker(
         "breaker",
         target=be,
-        failure_threshold=2,
-        success_threshold=2,
+        failure_threshold=p.count(0, 2, hi=5),
+        success_threshold=p.count(1, 2, hi=3),
         timeout=reset,
         half_open_max_requests=p.cap(1),
         failure_predicate=lambda e: bool(e.context.get("metadata", {}).get("fail")),
@@ -247,6 +259,8 @@ def _hedge(seed, params, max_hedges: int, ratio: float):
     svc = p.lat(0)
     rec = Recorder("rec")
     be = VarBackend("be", [svc * 4, svc, svc * 2.5, svc * 0.5], downstream=rec)
+    if max_hedges <= 0:
+        max_hedges = p.count(0, 2, hi=5)
     hg = Hedge("hedge", target=be, hedge_delay=svc * ratio, max_hedges=max_hedges)
     arr = p.arrivals(8)
     sim = make_sim([hg, be, rec], p.end())
@@ -262,8 +276,8 @@ def hedge_single(seed, params):
 
 @scenario("resilience.hedge_double", "resilience")
 def hedge_double(seed, params):
-    """Two hedges, tiny hedge_delay: both are sent before any response returns."""
-    return _hedge(seed, params, 2, 0.2)
+    """Several hedges (counts[0], default 2), tiny hedge_delay: all are sent before any response returns."""
+    return _hedge(seed, params, 0, 0.2)
 
 
 @scenario("resilience.hedge_cancelled_triggers", "resilience")
@@ -279,7 +293,7 @@ def hedge_server_target(seed, params):
     p = P(params, seed)
     rec = Recorder("rec")
     srv = Server("srv", concurrency=p.cap(2), service_time=ConstantLatency(p.lat(0)), queue_capacity=6, downstream=rec)
-    hg = Hedge("hedge", target=srv, hedge_delay=p.lat(1), max_hedges=int(p.x("max_hedges", 2)))
+    hg = Hedge("hedge", target=srv, hedge_delay=p.lat(1), max_hedges=int(p.x("max_hedges", p.count(0, 2, hi=4))))
     arr = p.arrivals(7)
     sim = make_sim([hg, srv, rec], p.end())
     _send(sim, hg, arr)
@@ -331,3 +345,195 @@ def timeout_wrapper_stacked(seed, params):
     for i, t in enumerate(arr):
         sim.schedule(ev(t, "Request", tw1 if i % 2 == 0 else tw2, i=i))
     return Scenario(sim, {"tw1": tw1, "tw2": tw2, "bulkhead": bh, "srv": srv, "rec": rec}, "resilience", True, len(arr))
+
+
+# ----------------------------------------------------------------------
+# composition: every wrapper BEHIND a delaying / queueing stage, in front of different targets
+#
+#   x.v % 5        front stage (server_queue / conveyor / rate_limited / inductor / link)
+#   (x.v // 5) % 3 target: zero-latency Replier / Replier 3x slower than the wrapper's timer / Server
+#   (x.v // 15) % 2 the wrapper's timer = 0.5 x or 3 x the front stage latency (so queued requests
+#                  reach the wrapper later than `timer` after their creation)
+
+
+def _variant(p: P, seed: int):
+    v = int(p.x("v", seed * 7 + 3))
+    return FRONT_STAGES[v % 5], (v // 5) % 3, (0.5 if (v // 15) % 2 == 0 else 3.0), v
+
+
+def _make_target(kind: int, p: P, timer: float, rec, name: str = "target"):
+    if kind == 0:
+        return Replier(name, 0.0, downstream=rec)
+    if kind == 1:
+        return Replier(name, timer * 3, downstream=rec)
+    return Server(name, concurrency=p.cap(2), service_time=ConstantLatency(p.lat(1)), queue_capacity=8, downstream=rec)
+
+
+def _composed(seed, params, make, default_n: int = 8, with_caller: bool = False):
+    """make(p, target, timer, rec, n_arrivals) -> {name: entity}; the first entity is the entry wrapper.
+    with_caller: every 4th request is issued by a Client (timeout 2 x timer) in front of the stage."""
+    p = P(params, seed)
+    fk, tk, scale, v = _variant(p, seed)
+    timer = p.lat(0) * scale
+    rec = Recorder("rec")
+    target = _make_target(tk, p, timer, rec)
+    arr = p.arrivals(default_n)
+    comps = make(p, target, timer, rec, len(arr))
+    wrapper = next(iter(comps.values()))
+    entry, fents = front_stage(fk, p, wrapper, 0)
+    caller = Client("caller", target=entry, timeout=timer * 2) if with_caller else None
+    if caller is not None:
+        comps = {**comps, "caller": caller}
+    sim = make_sim([*comps.values(), target, rec, *fents], p.end())
+    for i, t in enumerate(arr):
+        if caller is not None and (i % 4 == 3 or i == len(arr) - 1):
+            sim.schedule(ev(t, "Request", caller, i=i, fail=False, request_id=i + 1, payload=i, attempt=1))
+        else:
+            sim.schedule(ev(t, "Request", entry, i=i, fail=(i % 3 == 0), key=f"k{i % 3}"))
+    sc = Scenario(sim, {**comps, "target": target, "rec": rec}, "resilience", True, len(arr))
+    sc.notes = f"front={fk} target={('zero', 'slow', 'server')[tk]} timer={scale}x"
+    return sc
+
+
+def _fails(e) -> bool:
+    return bool(e.context.get("metadata", {}).get("fail"))
+
+
+@scenario("resilience.composed_timeout_wrapper", "resilience")
+def composed_timeout_wrapper(seed, params):
+    """TimeoutWrapper behind a front stage: requests reach it later than `timeout` after creation."""
+    return _composed(seed, params, lambda p, tgt, timer, rec, n: {"timeout": TimeoutWrapper("timeout", target=tgt, timeout=timer)})
+
+
+@scenario("resilience.composed_circuit_breaker", "resilience")
+def composed_circuit_breaker(seed, params):
+    """CircuitBreaker (thresholds from counts) behind a front stage; reset timeout = the timer."""
+
+    def make(p, tgt, timer, rec, n):
+        cb = CircuitBreaker(
+            "breaker",
+            target=tgt,
+            failure_threshold=p.count(0, 2, hi=5),
+            success_threshold=p.count(1, 1, hi=3),
+            timeout=timer,
+            half_open_max_requests=p.cap(1),
+            failure_predicate=_fails,
+        )
+        return {"breaker": cb}
+
+    return _composed(seed, params, make, with_caller=True)
+
+
+@scenario("resilience.composed_bulkhead", "resilience")
+def composed_bulkhead(seed, params):
+    """Bulkhead behind a front stage; max_wait_time = the timer, queue size from counts."""
+
+    def make(p, tgt, timer, rec, n):
+        bh = Bulkhead(
+            "bulkhead",
+            target=tgt,
+            max_concurrent=min(p.cap(2), max(1, n - 2)),
+            max_wait_queue=p.count(0, 3, lo=0),
+            max_wait_time=timer,
+        )
+        return {"bulkhead": bh}
+
+    return _composed(seed, params, make)
+
+
+@scenario("resilience.composed_hedge", "resilience")
+def composed_hedge(seed, params):
+    """Hedge behind a front stage; hedge_delay = the timer, max_hedges from counts."""
+    return _composed(
+        seed, params, lambda p, tgt, timer, rec, n: {"hedge": Hedge("hedge", target=tgt, hedge_delay=timer, max_hedges=p.count(0, 1, hi=4))}
+    )
+
+
+@scenario("resilience.composed_fallback", "resilience")
+def composed_fallback(seed, params):
+    """Fallback behind a front stage; timeout = the timer; fallback entity zero-latency or slow."""
+
+    def make(p, tgt, timer, rec, n):
+        secondary = Replier("secondary", 0.0 if p.count(2, 1) % 2 else p.lat(2), downstream=rec)
+        fb = Fallback("fallback", primary=tgt, fallback=secondary, failure_predicate=_fails, timeout=timer)
+        return {"fallback": fb, "secondary": secondary}
+
+    return _composed(seed, params, make)
+
+
+@scenario("resilience.composed_chain", "resilience")
+def composed_chain(seed, params):
+    """Wrapper in wrapper behind a front stage: TimeoutWrapper -> Hedge -> Bulkhead -> target."""
+
+    def make(p, tgt, timer, rec, n):
+        bh = Bulkhead("bulkhead", target=tgt, max_concurrent=min(p.cap(2), max(1, n - 2)), max_wait_queue=p.count(0, 2, lo=0), max_wait_time=timer * 2)
+        hg = Hedge("hedge", target=bh, hedge_delay=timer * 0.5, max_hedges=p.count(1, 1, hi=3))
+        tw = TimeoutWrapper("timeout", target=hg, timeout=timer)
+        return {"timeout": tw, "hedge": hg, "bulkhead": bh}
+
+    return _composed(seed, params, make)
+
+
+@scenario("resilience.composed_chain_breaker_fallback", "resilience")
+def composed_chain_breaker_fallback(seed, params):
+    """Fallback -> CircuitBreaker -> TimeoutWrapper -> target behind a front stage (the
+    fallback path is another wrapper stack ending in a zero-latency Replier)."""
+
+    def make(p, tgt, timer, rec, n):
+        tw = TimeoutWrapper("timeout", target=tgt, timeout=timer)
+        cb = CircuitBreaker("breaker", target=tw, failure_threshold=p.count(0, 2, hi=4), success_threshold=1, timeout=timer * 2, failure_predicate=_fails)
+        spare = Replier("spare", 0.0, downstream=rec)
+        tw2 = TimeoutWrapper("timeout.spare", target=spare, timeout=timer * 0.5)
+        fb = Fallback("fallback", primary=cb, fallback=tw2, failure_predicate=_fails, timeout=timer * 1.5)
+        return {"fallback": fb, "breaker": cb, "timeout": tw, "timeout.spare": tw2, "spare": spare}
+
+    return _composed(seed, params, make)
+
+
+# ----------------------------------------------------------------------
+# degenerate configurations the constructors accept
+
+
+@scenario("resilience.degenerate_limits", "resilience")
+def degenerate_limits(seed, params):
+    """The smallest values the constructors accept: Bulkhead with no wait queue and 1 ns
+    max_wait_time, Hedge with a 1 ns hedge_delay, TimeoutWrapper / Fallback with 1 ns timeouts,
+    CircuitBreaker with thresholds 1 and a 1 ns reset timeout; zero-latency and slow targets."""
+    p = P(params, seed)
+    rec = Recorder("rec")
+    zero = Replier("zero", 0.0, downstream=rec)
+    slow = Replier("slow", p.lat(0), downstream=rec)
+    eps = 1e-9
+    bh0 = Bulkhead("bh.noqueue", target=slow, max_concurrent=1, max_wait_queue=0, max_wait_time=eps)
+    bh1 = Bulkhead("bh.tinywait", target=slow, max_concurrent=1, max_wait_queue=p.count(0, 3), max_wait_time=eps)
+    hg = Hedge("hedge.eps", target=slow, hedge_delay=eps, max_hedges=p.count(1, 2, hi=5))
+    hg0 = Hedge("hedge.zero_target", target=zero, hedge_delay=eps, max_hedges=1)
+    tw = TimeoutWrapper("timeout.eps", target=slow, timeout=eps)
+    tw0 = TimeoutWrapper("timeout.zero_target", target=zero, timeout=eps)
+    fb = Fallback("fallback.eps", primary=slow, fallback=zero, timeout=eps)
+    cb = CircuitBreaker("breaker.eps", target=zero, failure_threshold=1, success_threshold=1, timeout=eps, failure_predicate=_fails)
+    wrappers = [bh0, bh1, hg, hg0, tw, tw0, fb, cb]
+    arr = p.arrivals(4)
+    sim = make_sim([*wrappers, zero, slow, rec], p.end())
+    for i, t in enumerate(arr):
+        for w in wrappers:  # every wrapper sees the whole arrival pattern
+            sim.schedule(ev(t, "Request", w, i=i, fail=(i % 2 == 0)))
+    return Scenario(sim, {w.name: w for w in wrappers} | {"rec": rec}, "resilience", True, len(arr) * len(wrappers))
+
+
+@scenario("resilience.degenerate_client_through_wrappers", "resilience")
+def degenerate_client_through_wrappers(seed, params):
+    """A Client with timeout 0 and a single attempt (max_attempts=1) calling a zero-latency
+    target through TimeoutWrapper -> CircuitBreaker; another with ExponentialBackoff(1 attempt)."""
+    p = P(params, seed)
+    rec = Recorder("rec")
+    zero = Replier("zero", 0.0, downstream=rec)
+    cb = CircuitBreaker("breaker", target=zero, failure_threshold=1, success_threshold=1, timeout=p.lat(0))
+    tw = TimeoutWrapper("timeout", target=cb, timeout=p.lat(1))
+    c0 = Client("client.zero", target=tw, timeout=0.0, retry_policy=FixedRetry(max_attempts=1, delay=0.0))
+    c1 = Client("client.one", target=tw, timeout=p.lat(2), retry_policy=ExponentialBackoff(max_attempts=1, initial_delay=p.lat(3), max_delay=p.lat(3)))
+    arr = p.arrivals(8)
+    sim = make_sim([c0, c1, tw, cb, zero, rec], p.end())
+    for i, t in enumerate(arr):
+        sim.schedule(ev(t, "request", c0 if i % 2 == 0 else c1, request_id=i + 1, payload=i, attempt=1))
+    return Scenario(sim, {"client.zero": c0, "client.one": c1, "timeout": tw, "breaker": cb, "rec": rec}, "resilience", True, len(arr))
